@@ -82,7 +82,8 @@ type getSSEConnection struct {
 	flusher     http.Flusher
 	ctx         context.Context
 	cancelFunc  context.CancelFunc
-	lastEventID string
+	lastEventID string     // guarded by eventIDLock
+	eventIDLock sync.Mutex // never held across I/O (unlike writeLock)
 
 	// Prevent concurrent write conflicts
 	writeLock sync.Mutex
@@ -717,7 +718,9 @@ func (h *httpServerHandler) sendNotificationToGetSSE(sessionID string, notificat
 	}
 
 	// Update last event ID
+	conn.eventIDLock.Lock()
 	conn.lastEventID = eventID
+	conn.eventIDLock.Unlock()
 	return nil
 }
 
@@ -736,10 +739,11 @@ func (h *httpServerHandler) handleStreamResumption(ctx context.Context, conn *ge
 
 	// Implement resumption logic, re-sending messages based on lastEventID
 	// This needs to be handled according to the server's storage/cache mechanism
-	// (senders update conn.lastEventID under writeLock as soon as the connection is registered).
-	conn.writeLock.Lock()
+	// (senders update conn.lastEventID as soon as the connection is registered; the lock for it is
+	// not the write lock, which a sender may hold for as long as the peer does not read).
+	conn.eventIDLock.Lock()
 	resumedFrom := conn.lastEventID
-	conn.writeLock.Unlock()
+	conn.eventIDLock.Unlock()
 	h.logger.Infof("Resuming session %s GET SSE stream, event ID: %s", sessionID, resumedFrom)
 
 	// Create params for the notification
@@ -830,7 +834,9 @@ func (h *httpServerHandler) SendRequest(ctx context.Context, sessionID string, r
 		conn.writeLock.Unlock()
 		return nil, fmt.Errorf("failed to send request via SSE: %w", err)
 	}
+	conn.eventIDLock.Lock()
 	conn.lastEventID = eventID
+	conn.eventIDLock.Unlock()
 	conn.writeLock.Unlock()
 
 	// Wait for response or timeout.
